@@ -54,10 +54,15 @@ def build_plan(choice: Choice, tier):
                 ops.append(["listing"])
         p["ops"] = ops
         p["pre_creates"] = [0, 0, 1, 2][d(4, "pre_creates")]     # create() calls before the with statement is entered
+        # fault: a pool file is deleted externally at the worst moment - right before the k-th os.remove() the pool
+        # issues (i.e. after whatever check the pool did); the pool must tolerate it
+        p["vanish_before_remove"] = (1 + d(4, "vanish.at")) if d(4, "vanish") == 3 else None
         p["raise_after"] = d(len(ops) + 1, "raise_at") if d(2, "raises") == 1 else None   # raise before op i / at the end
         p["multi_proc_flag"] = False
     elif p["family"] == "tmp-fork":
-        # a pool constructed in one process and used (with-statement, creates, exit) in a REAL forked child
+        # a pool constructed in one process and used (with-statement, creates, exit) in a REAL forked child; or a
+        # bystander child that inherits a pool holding files and simply exits the ordinary way (fresh interpreter)
+        p["bystander_exit"] = d(3, "bystander") == 2
         p["creates"] = 1 + d(3, "creates")
         p["child_raises"] = d(2, "child.raises") == 1
         p["parent_creates_first"] = d(2, "parent.first")
@@ -127,6 +132,25 @@ def run_tmp_single(plan, tmpdir):
     d = tmpdir if plan["use_dir"] else None
     raised = None
     pool = files.TmpPool(d)
+    if plan.get("vanish_before_remove"):
+        real_os = files.os
+        counter = {"n": 0}
+
+        class OsShim:
+            path = real_os.path
+
+            def remove(self, pth):
+                counter["n"] += 1
+                if counter["n"] == plan["vanish_before_remove"] and real_os.path.exists(pth):
+                    real_os.remove(pth)          # somebody else was faster
+                    ext_deleted.add(pth)
+                    stats["vanished"] = stats.get("vanished", 0) + 1
+                return real_os.remove(pth)
+
+            def __getattr__(self, name):
+                return getattr(real_os, name)
+
+        files.os = OsShim()
     try:
         for _ in range(plan.get("pre_creates", 0)):
             pth = pool.create()
@@ -191,9 +215,46 @@ def run_tmp_single(plan, tmpdir):
     return viol, stats
 
 
+BYSTANDER = r"""
+import os, sys
+sys.path.insert(0, sys.argv[1])
+from windpyutils.files import TmpPool
+d, n = sys.argv[2], int(sys.argv[3])
+pool = TmpPool(d)
+made = [pool.create() for _ in range(n)]
+pid = os.fork()
+if pid == 0:
+    sys.exit(0)          # a child that has nothing to do with the pool leaves the ordinary way
+os.waitpid(pid, 0)
+listed = [pool[i] for i in range(len(pool))]
+ok = sorted(listed) == sorted(made) and all(os.path.exists(p) for p in made)
+print("LISTED", len(listed), "EXIST", sum(os.path.exists(p) for p in made))
+pool.flush()
+left = [p for p in made if os.path.exists(p)]
+print("LEFT", len(left))
+sys.exit(0 if ok and not left else 5)
+"""
+
+
+def run_bystander(plan, tmpdir):
+    import subprocess
+    import sys
+    n = plan["creates"]
+    out = subprocess.run([sys.executable, "-c", BYSTANDER, runner.REPO_ROOT, tmpdir, str(n)], capture_output=True,
+                         text=True, timeout=60)
+    viol = []
+    if out.returncode != 0:
+        viol.append({"class": "tmp-pool", "site": "fork:bystander-exit",
+                     "message": f"a pool holding {n} files, a forked child that just exits: {out.stdout.strip()!r} "
+                                f"{out.stderr.strip()[-200:]!r}"})
+    return viol, {"ops": n + 3}
+
+
 def run_tmp_fork(plan, tmpdir):
     """Real fork: the pool object is constructed in the parent, the with-statement runs in the child."""
     import windpyutils.files as files
+    if plan.get("bystander_exit"):
+        return run_bystander(plan, tmpdir)
     viol = []
     d = tmpdir
     pool = files.TmpPool(d)
@@ -337,6 +398,8 @@ def scenario_multi(k: Kernel, plan, obs):
             return getattr(multiprocessing, name)
 
     files.multiprocessing = MP()
+    from sim.prims import install_threading_shims
+    install_threading_shims(k, [files])
     log = Log()
     obs["log"] = log
     tmpdir = obs["tmpdir"]
@@ -466,7 +529,8 @@ class Spec:
         "files given to FilePool can all be opened in the chosen mode",
         "sampling, not enumeration",
     ]
-    PROBES = ["child-forked-before-flush", "exception-in-body", "external-delete", "multi-runs", "failed-enter-then-retry"]
+    PROBES = ["child-forked-before-flush", "exception-in-body", "external-delete", "multi-runs", "failed-enter-then-retry",
+              "file-vanished-before-remove", "real-fork"]
     RULE = ("one run = drawn family (tmp-single / filepool / tmp-multi), seeded operation history, exception position, "
             "fork points of the children relative to the parent's history and (multi) a seeded schedule with line-level "
             "pre-emption; non-trivial = a history with at least 3 operations (single) or at least two tasks runnable at "
@@ -509,6 +573,10 @@ class Spec:
                 probes["external-delete"] = 1
             if plan.get("missing_at_first_enter") is not None:
                 probes["failed-enter-then-retry"] = 1
+            if stats.get("vanished"):
+                probes["file-vanished-before-remove"] = stats["vanished"]
+            if plan["family"] == "tmp-fork":
+                probes["real-fork"] = 1
             emit({"verdict": "violation" if viol else "ok", "violations": viol, "digest": h, "signature": h[:16],
                   "steps": stats["ops"], "switches": 0, "preemptions": 0, "sync_events": stats["ops"], "max_live": 1,
                   "probes": probes, "faults": ({"exception-in-body": 1} if probes.get("exception-in-body") else {}),
